@@ -33,6 +33,7 @@
 #endif
 
 #include "assert.hpp"
+#include "verif_hooks.hpp"
 
 namespace unodb::detail {
 
@@ -98,6 +99,7 @@ thread_local std::unique_ptr<qsbr_per_thread>
 [[nodiscard]] qsbr_state::type
 qsbr_state::atomic_fetch_dec_threads_in_previous_epoch(
     std::atomic<qsbr_state::type>& word) noexcept {
+  UNODB_DETAIL_VERIF_HOOK(::unodb::verif::ev::Q_STATE_DEC, &word);
   const auto old_word = word.fetch_sub(1, std::memory_order_acq_rel);
 
   UNODB_DETAIL_ASSERT(get_threads_in_previous_epoch(old_word) > 0);
@@ -171,9 +173,11 @@ void add_to_orphan_list(
   auto* const list_node_ptr = orphan_list_node.release();
 
   list_node_ptr->requests = std::move(requests);
+  UNODB_DETAIL_VERIF_HOOK(::unodb::verif::ev::Q_ORPHAN_LOAD, &orphan_list);
   list_node_ptr->next = orphan_list.load(std::memory_order_acquire);
 
   while (true) {
+    UNODB_DETAIL_VERIF_HOOK(::unodb::verif::ev::Q_ORPHAN_CAS, &orphan_list);
     if (UNODB_DETAIL_LIKELY(orphan_list.compare_exchange_weak(
             list_node_ptr->next, list_node_ptr, std::memory_order_acq_rel,
             std::memory_order_acquire)))
@@ -190,6 +194,7 @@ void add_to_orphan_list(
 [[nodiscard]] detail::dealloc_vector_list_node* take_orphan_list(
     std::atomic<detail::dealloc_vector_list_node*>& orphan_list
     UNODB_DETAIL_LIFETIMEBOUND) noexcept {
+  UNODB_DETAIL_VERIF_HOOK(::unodb::verif::ev::Q_ORPHAN_XCHG, &orphan_list);
   return orphan_list.exchange(nullptr, std::memory_order_acq_rel);
 }
 
@@ -246,6 +251,7 @@ qsbr_epoch qsbr::register_thread() noexcept {
       const auto new_state =
           qsbr_state::inc_thread_count_and_threads_in_previous_epoch(old_state);
 
+      UNODB_DETAIL_VERIF_HOOK(::unodb::verif::ev::Q_STATE_CAS, &state);
       if (UNODB_DETAIL_LIKELY(state.compare_exchange_weak(
               old_state, new_state, std::memory_order_acq_rel,
               std::memory_order_acquire)))
@@ -264,6 +270,7 @@ qsbr_epoch qsbr::register_thread() noexcept {
     // Epoch change in progress - try to bump the thread count only
     const auto new_state = qsbr_state::inc_thread_count(old_state);
 
+    UNODB_DETAIL_VERIF_HOOK(::unodb::verif::ev::Q_STATE_CAS, &state);
     if (UNODB_DETAIL_LIKELY(state.compare_exchange_weak(
             old_state, new_state, std::memory_order_acq_rel,
             std::memory_order_acquire))) {
@@ -290,6 +297,7 @@ void qsbr::unregister_thread(std::uint64_t quiescent_states_since_epoch_change,
 #endif
 {
   bool epoch_change_prepared = false;
+  UNODB_DETAIL_VERIF_HOOK(::unodb::verif::ev::Q_STATE_LOAD, &state);
   auto old_state = state.load(std::memory_order_acquire);
 
   while (true) {
@@ -302,6 +310,7 @@ void qsbr::unregister_thread(std::uint64_t quiescent_states_since_epoch_change,
 
       // Epoch change in progress - try to decrement the thread count only
       const auto new_state = qsbr_state::dec_thread_count(old_state);
+      UNODB_DETAIL_VERIF_HOOK(::unodb::verif::ev::Q_STATE_CAS, &state);
       if (UNODB_DETAIL_LIKELY(state.compare_exchange_weak(
               old_state, new_state, std::memory_order_acq_rel,
               std::memory_order_acquire))) {
@@ -343,6 +352,7 @@ void qsbr::unregister_thread(std::uint64_t quiescent_states_since_epoch_change,
       }
     }
 
+    UNODB_DETAIL_VERIF_HOOK(::unodb::verif::ev::Q_STATE_CAS, &state);
     if (UNODB_DETAIL_LIKELY(state.compare_exchange_weak(
             old_state, new_state, std::memory_order_acq_rel,
             std::memory_order_acquire))) {
@@ -478,6 +488,8 @@ void qsbr::epoch_change_barrier_and_handle_orphans(
   free_orphan_list(orphaned_previous_requests);
 
   if (UNODB_DETAIL_LIKELY(!single_thread_mode)) {
+    UNODB_DETAIL_VERIF_HOOK(::unodb::verif::ev::Q_ORPHAN_CAS,
+                            &orphaned_previous_interval_dealloc_requests);
     detail::dealloc_vector_list_node* new_previous_requests = nullptr;
     if (UNODB_DETAIL_UNLIKELY(
             !orphaned_previous_interval_dealloc_requests
@@ -489,6 +501,8 @@ void qsbr::epoch_change_barrier_and_handle_orphans(
       // everybody else add at the list head. The list should be short in
       // general case as not too many threads could have quit since we took the
       // previous batch.
+      UNODB_DETAIL_VERIF_HOOK(::unodb::verif::ev::Q_ORPHAN_TAIL,
+                              &orphaned_previous_interval_dealloc_requests);
       while (new_previous_requests->next != nullptr)
         new_previous_requests = new_previous_requests->next;
       new_previous_requests->next = orphaned_current_requests;
@@ -502,12 +516,14 @@ qsbr_epoch qsbr::change_epoch(qsbr_epoch current_global_epoch,
                               bool single_thread_mode) noexcept {
   epoch_change_barrier_and_handle_orphans(single_thread_mode);
 
+  UNODB_DETAIL_VERIF_HOOK(::unodb::verif::ev::Q_STATE_LOAD, &state);
   auto old_state = state.load(std::memory_order_acquire);
   while (true) {
     UNODB_DETAIL_ASSERT(current_global_epoch ==
                         qsbr_state::get_epoch(old_state));
 
     const auto new_state = qsbr_state::inc_epoch_reset_previous(old_state);
+    UNODB_DETAIL_VERIF_HOOK(::unodb::verif::ev::Q_STATE_CAS, &state);
     if (UNODB_DETAIL_LIKELY(state.compare_exchange_weak(
             old_state, new_state, std::memory_order_acq_rel,
             std::memory_order_acquire))) {
